@@ -831,11 +831,11 @@ def run(ctx):
                                            'corpus', 'C15', '*.json'))):
         case = json.load(open(f))
         _run_one(ctx, case, reqs, pending)
-    for idx in range(ctx.n(250, 5000)):
+    for idx in range(ctx.n(700, 6000)):
         _check_doc(ctx, _doc_case(ctx, idx), reqs, pending)
-    for idx in range(ctx.n(120, 2500)):
+    for idx in range(ctx.n(300, 2500)):
         _check_ko(ctx, _ko_case(ctx, idx), reqs, pending)
-    for idx in range(ctx.n(150, 3000)):
+    for idx in range(ctx.n(450, 4000)):
         _check_seg(ctx, _seg_case(ctx, idx), reqs, pending)
     _real_segmentations(ctx)
     answers = ctx.model(reqs)
